@@ -475,7 +475,7 @@ type boundedSpec struct {
 
 // runBounded runs the bounded stand-ins of a property.  They are reported under
 // coverage.bounded and are never counted as obligations of the proof.
-func runBounded(v *Verifier, ps *PropSpec, tier string, seed int, verifDir string, lines *[]string, violations *int, nReplay *int) map[string]any {
+func runBounded(v *Verifier, ps *PropSpec, tier string, seed int, verifDir string, lines *[]string, violations *int, nReplay *int, known []KnownFinding, knownLines *[]string) map[string]any {
 	if len(ps.BoundedChecks) == 0 {
 		return nil
 	}
@@ -486,7 +486,13 @@ func runBounded(v *Verifier, ps *PropSpec, tier string, seed int, verifDir strin
 		if tier == "thorough" {
 			to = 40 * time.Minute
 		}
-		text, failed, err := runDriver(v, verifDir, b.Rel, "TestVerifBounded", []string{"VERIF_BOUNDED=" + b.Name, "VERIF_TIER=" + tier, fmt.Sprintf("VERIF_SEED=%d", seed)}, tag, to)
+		var classes []string
+		for _, kf := range known {
+			if kf.Property == ps.ID && kf.Status == "known" && kf.Bounded == b.Name && kf.Class != "" {
+				classes = append(classes, kf.Class)
+			}
+		}
+		text, failed, err := runDriver(v, verifDir, b.Rel, "TestVerifBounded", []string{"VERIF_BOUNDED=" + b.Name, "VERIF_TIER=" + tier, fmt.Sprintf("VERIF_SEED=%d", seed), "VERIF_KNOWN_CLASSES=" + strings.Join(classes, ",")}, tag, to)
 		rec := map[string]any{"what": b.What, "label": "bounded (not counted as proved)", "package": b.Rel}
 		if err != nil {
 			rec["error"] = err.Error()
@@ -494,6 +500,18 @@ func runBounded(v *Verifier, ps *PropSpec, tier string, seed int, verifDir strin
 			continue
 		}
 		for _, l := range strings.Split(text, "\n") {
+			if i := strings.Index(l, "KNOWN-CLASS "); i >= 0 {
+				// "KNOWN-CLASS <class> <count> <example…>": failures inside a listed class of inputs
+				f := strings.Fields(l[i+len("KNOWN-CLASS "):])
+				if len(f) >= 2 && f[1] != "0" {
+					for _, kf := range known {
+						if kf.Property == ps.ID && kf.Status == "known" && kf.Bounded == b.Name && kf.Class == f[0] {
+							*knownLines = append(*knownLines, fmt.Sprintf("KNOWN-FINDING: property=%s %s (bounded:%s, class %s: %s cases, e.g. %s)", ps.ID, kf.What, b.Name, kf.Class, f[1], strings.Join(f[2:], " ")))
+							rec["known_finding_class_"+kf.Class] = f[1]
+						}
+					}
+				}
+			}
 			if i := strings.Index(l, "BOUNDED-RESULT "); i >= 0 {
 				var r map[string]any
 				if json.Unmarshal([]byte(l[i+len("BOUNDED-RESULT "):]), &r) == nil {
